@@ -277,18 +277,39 @@ def cli_pool_stream(ctx: common.Ctx, rules):
                     pool = IndexDir(idx).load_canonical_peptides(cp)
                 cases.append((line, ','.join(sorted(pool)), {'path': 'generateIndex', **base,
                               'proteins': [s for _d, _t, s in recs]}))
-                misc2 = (misc + 1) % 3
-                base2 = dict(base, miscleavage=misc2)
-                cp2 = params.CleavageParams(enzyme=enzyme, exception=spelling, miscleavage=misc2,
-                                            min_mw=500., min_length=7, max_length=25)
+                # (3) updateIndex with parameters that differ from the first pool in exactly ONE field
+                # (a pool must be found by ALL its parameters), then both pools are loaded
+                field, val = rng.choice([('miscleavage', (misc + 1) % 3), ('min_mw', 900.), ('min_mw', 1500.),
+                                         ('min_length', 9), ('max_length', 18), ('max_length', 30)])
+                base2 = dict(base, **{field: val})
+                cp2 = params.CleavageParams(enzyme=enzyme, exception=spelling,
+                                            miscleavage=base2['miscleavage'], min_mw=base2['min_mw'],
+                                            min_length=base2['min_length'], max_length=base2['max_length'])
                 a2 = ns(command='updateIndex', index_dir=idx)
-                a2.miscleavage = misc2
-                with gen_ref.quiet():
-                    update_index(a2)
-                    pool2 = IndexDir(idx).load_canonical_peptides(cp2)
-                line2 = (f'C10\tpool\t{enzyme}\t{exc or "-"}\t{misc2}\t{mw_int(500.)}\t7\t25\t{enc}')
-                cases.append((line2, ','.join(sorted(pool2)), {'path': 'updateIndex', **base2,
+                setattr(a2, field, val)
+                line2 = (f'C10\tpool\t{enzyme}\t{exc or "-"}\t{base2["miscleavage"]}\t'
+                         f'{mw_int(base2["min_mw"])}\t{base2["min_length"]}\t{base2["max_length"]}\t{enc}')
+                try:
+                    with gen_ref.quiet():
+                        update_index(a2)
+                        pool2 = IndexDir(idx).load_canonical_peptides(cp2)
+                    real2 = ','.join(sorted(pool2))
+                except BaseException as e:   # noqa  SystemExit ("already exists") included
+                    if isinstance(e, KeyboardInterrupt):
+                        raise
+                    real2 = f'crash:{type(e).__name__}'
+                cases.append((line2, real2, {'path': 'updateIndex', **base2, 'differs_in': field,
                               'proteins': [s for _d, _t, s in recs]}))
+                try:
+                    with gen_ref.quiet():
+                        pool1 = IndexDir(idx).load_canonical_peptides(cp)
+                    real1 = ','.join(sorted(pool1))
+                except BaseException as e:   # noqa
+                    if isinstance(e, KeyboardInterrupt):
+                        raise
+                    real1 = f'crash:{type(e).__name__}'
+                cases.append((line, real1, {'path': 'first pool after updateIndex', **base,
+                              'update_differs_in': field, 'proteins': [s for _d, _t, s in recs]}))
         finally:
             case.cleanup()
     ctx.diff_stream('cli_pool', cases, True, lambda o: o, lambda o: o != '',
